@@ -6,26 +6,33 @@
 // src/merkle_proof.rs to_bytes/from_bytes, src/proof_serializers/
 // direct_hashes_order.rs): a proof is its list of 32-byte hashes; to_bytes is
 // their concatenation; from_bytes accepts exactly multiples of 32 bytes.
+pub struct Sha256 {}
 #[verifier::external_body]
-pub struct MerkleProof { _p: () }
-impl View for MerkleProof {
+#[verifier::reject_recursive_types(T)]
+pub struct MerkleProof<T> { _p: core::marker::PhantomData<T> }
+impl<T> View for MerkleProof<T> {
     type V = Seq<u8>;     // concatenated proof hashes
     uninterp spec fn view(&self) -> Seq<u8>;
 }
 #[derive(Debug)]
 pub struct MerkleError { pub _p: () }
-impl MerkleProof {
+pub open spec fn flatten32(h: Seq<[u8; 32]>) -> Seq<u8>
+    decreases h.len(),
+{
+    if h.len() == 0 { Seq::<u8>::empty() } else { h[0]@ + flatten32(h.subrange(1, h.len() as int)) }
+}
+impl<T> MerkleProof<T> {
     #[verifier::external_body]
     pub fn to_bytes(&self) -> (r: Vec<u8>)
         ensures r@ == self@, self@.len() % 32 == 0,
     { unimplemented!() }
     #[verifier::external_body]
-    pub fn from_bytes(b: &[u8]) -> (r: core::result::Result<MerkleProof, MerkleError>)
+    pub fn from_bytes(b: &[u8]) -> (r: core::result::Result<MerkleProof<T>, MerkleError>)
         ensures r.is_ok() <==> b@.len() % 32 == 0, r.is_ok() ==> r.unwrap()@ == b@,
     { unimplemented!() }
     #[verifier::external_body]
-    pub fn new_empty() -> (r: MerkleProof)
-        ensures r@.len() == 0,
+    pub fn new(hashes: Vec<[u8; 32]>) -> (r: MerkleProof<T>)
+        ensures r@ == flatten32(hashes@),
     { unimplemented!() }
 }
 
